@@ -311,6 +311,8 @@ HistJobs ==
     Job("convert", "stl", "-", ".stl", "-", ".vtt", Named(1), Named(3), <<>>),
     Job("convert", "vtt", "-", ".vtt", "-", ".ttml", 0, 0, <<>>),          \* no configuration at all: whatever an earlier job configured must not linger
     Job("convert", "srt", "-", ".srt", "TTML", ".out", 0, Named(5), <<"lcd">>),
+    \* a second lcd conversion with the DEFAULT lcd configuration on styled TTML: what the configured one allowed must not linger
+    Job("convert", "ttml", "-", ".ttml", "-", ".ttml", 0, Named(1), <<"lcd">>),
     Job("convert", "ttml", "-", ".ttml", "-", ".vtt", 0, Named(8), <<"stampa">>) }
 
 SingleJobs == {j \in DispatchJobs : Meaningful(j) /\ Reduced(j)} \cup ConfigJobs \cup OtherJobs
